@@ -80,6 +80,7 @@ SHAPES = {
     "nested_labels": [("A/X", "H1", 200.0, 100.0, 1000.0, 5.0), ("A/Y", "C1", 50.0, 180.0, 1300.0, 5.0), ("B", "H2", 150.0, 60.0, 900.0, 5.0)],
     "threshold": [("Z", "H1", 300.0, 200.0, 500.0, 5.0), ("Z", "C1", 20.0, 100.0, 2000.0, 5.0)],
     "zero_duty_isothermal": [("Z", "H1", 200.0, 100.0, 1000.0, 5.0), ("Z", "N1", 120.0, 120.0, 0.0, 5.0), ("Z", "C1", 50.0, 180.0, 1300.0, 5.0)],
+    "very_unequal_duties": [("Z", "H1", 200.0, 100.0, 2.0e6, 5.0), ("Z", "C1", 50.0, 80.0, 5.0, 5.0)],
     "balanced": [("Z", "H1", 200.0, 100.0, 1000.0, 0.0), ("Z", "C1", 100.0, 200.0, 1000.0, 0.0)],
 }
 UTILS = {
